@@ -34,6 +34,11 @@ func emitMix(out *Out, r *Rng, goroutines, rounds int) {
 	o.docs[expiring] = &orgEntry{ver: 22, policy: "max-age=3"}
 	o.docs[nostore] = &orgEntry{ver: 33, policy: "no-store"}
 	o.docs[stale] = &orgEntry{ver: 44, policy: "max-age=0"}
+	// pages that are no JSON documents and name one with an alternate link: never stored / stored / found expired at once
+	pageA, pageB, pageC := "https://ctx.example/pageA", "https://pages.example/pageB", "https://pages.example/pageC"
+	o.docs[pageA] = &orgEntry{alt: nostore, policy: "no-store"}
+	o.docs[pageB] = &orgEntry{alt: warm, policy: "max-age=3600"}
+	o.docs[pageC] = &orgEntry{alt: pageA, policy: "max-age=0"}
 	loader, ve := cfg.build(o)
 	// the schema context is served as a real document
 	ctxLoader := &ctxOrigin{scripted: o, extra: map[string][]byte{g.sch.URL: g.ContextDoc()}, policy: []string{"max-age=3600", "max-age=3", "no-store", "max-age=0"}[r.Intn(4)]}
@@ -61,7 +66,8 @@ func emitMix(out *Out, r *Rng, goroutines, rounds int) {
 	hvWant, _ := merklize.HashValue(xsdNS+"integer", 12345)
 	small := hSmall(65537)
 	urls := []string{warm, expiring, nostore, embedded, "https://ctx.example/missing.jsonld", stale, stale}
-	want := map[string]int{warm: 11, expiring: 22, nostore: 33, embedded: 1234, "https://ctx.example/missing.jsonld": -1, stale: 44}
+	want := map[string]int{warm: 11, expiring: 22, nostore: 33, embedded: 1234, "https://ctx.example/missing.jsonld": -1, stale: 44, pageA: 33, pageB: 11, pageC: 33}
+	loadURLs := append(append([]string{}, urls...), pageA, pageA, pageB, pageC)
 	var mu sync.Mutex
 	var why []string
 	fail := func(s string) {
@@ -143,7 +149,7 @@ func emitMix(out *Out, r *Rng, goroutines, rounds int) {
 						}
 					}
 				default:
-					u := urls[lr.Intn(len(urls))]
+					u := loadURLs[lr.Intn(len(loadURLs))]
 					d, err := loader2.LoadDocument(u)
 					got := -1
 					if err == nil {
@@ -168,7 +174,9 @@ func emitMix(out *Out, r *Rng, goroutines, rounds int) {
 		}
 	}
 	for u, e := range o.docs {
-		org[u] = e.ver
+		if e.alt == "" {
+			org[u] = e.ver
+		}
 	}
 	uj := make([]any, len(urls))
 	for i, u := range urls {
